@@ -477,7 +477,6 @@ fn enum_strategy() -> impl Strategy<Value = EnumCase> {
 }
 
 pub fn run(ctx: &Ctx) -> i32 {
-    let _ = check_enum(&EnumCase { which: 0, variant: true, vals: [1, 2, 3, 4], route: 0 });
     if ctx.is_replay() {
         ctx.run("slices", 1, slice_strategy(), check_slice);
         ctx.run("utf8-random", 1, utf8_strategy(), check_utf8);
